@@ -71,6 +71,9 @@ def check_wrap(o):
         raw2 = f(px2)
     if isinstance(raw2, np.ndarray) and np.shares_memory(raw2, px2):
         bad.append(("the feature of a raw array shares memory with that array", {}, None))
+    # an image whose mask is all true has a feature image whose mask is all true - also when the output grid is one row / column
+    if c["img"] == "masked_full" and hasattr(r, "mask") and not bool(np.all(r.mask.mask)):
+        bad.append(("the feature of an image with an all-true mask has %d false mask pixels (output shape %r)" % (int((~r.mask.mask).sum()), tuple(r.shape)), {}, None))
     # where the image came from is not part of what the feature computes: the same image remembering a file path (as every
     # imported image does) gives the same feature image, landmarks and mask
     import pathlib
